@@ -102,3 +102,29 @@ Theorem C19_option_spelling_is_exact :
   option_accepts_val OProgress (PStr "Tqdm") = false /\ option_accepts_val OProgress (PStr "tqdm ") = false.
 Proof. exact option_spelling_exact. Qed.
 Print Assumptions C19_option_spelling_is_exact.
+
+(* the minimum cycle count of the amplitude method can be given in two dictionaries (burst_kwargs: detector, thresholds:
+   run filter); accepted <-> no count that is given is negative ... *)
+Theorem C19_min_n_cycles_in_either_dictionary : forall b t,
+  min_n_pair_ok b t = true <-> (forall n, b = Some n -> (0 <= n)%Z) /\ (forall n, t = Some n -> (0 <= n)%Z).
+Proof. exact min_n_pair_ok_iff. Qed.
+Print Assumptions C19_min_n_cycles_in_either_dictionary.
+
+(* ... so a negative count is rejected wherever it is given, whatever the other dictionary says *)
+Theorem C19_negative_min_n_cycles_rejected_in_either_dictionary : forall b t n,
+  b = Some n \/ t = Some n -> (n < 0)%Z -> min_n_pair_ok b t = false.
+Proof. exact min_n_pair_negative_rejected. Qed.
+Print Assumptions C19_negative_min_n_cycles_rejected_in_either_dictionary.
+
+(* validating only the count the pipeline ends up using (burst_kwargs', else the thresholds', else 3: the behaviour before
+   the repair 5602cfc) differs from the rule on exactly one class: valid count in burst_kwargs, negative count in the thresholds *)
+Theorem C19_validating_only_the_effective_count_differs_exactly_on : forall b t,
+  min_n_pair_ok_legacy b t <> min_n_pair_ok b t <->
+  exists nb nt, b = Some nb /\ t = Some nt /\ (0 <= nb)%Z /\ (nt < 0)%Z.
+Proof. exact min_n_pair_legacy_differs_iff. Qed.
+Print Assumptions C19_validating_only_the_effective_count_differs_exactly_on.
+
+Theorem C19_overwritten_negative_count_refuted :
+  exists b t n, t = Some n /\ (n < 0)%Z /\ min_n_pair_ok_legacy b t = true /\ min_n_pair_ok b t = false.
+Proof. exact min_n_pair_legacy_refuted. Qed.
+Print Assumptions C19_overwritten_negative_count_refuted.
